@@ -304,7 +304,12 @@ func LoopProtoToS2Loop(loop *pb.LoopProto) *s2.Loop {
 	if loop == nil {
 		return nil
 	}
-	return s2.LoopFromPoints(LoopProtoToS2Points(loop))
+	// Holes are written with their vertices reversed (see NewPolygonProto),
+	// and clients may send either orientation: s2.PolygonFromLoops expects
+	// every loop to enclose the smaller of the two regions it bounds.
+	l := s2.LoopFromPoints(LoopProtoToS2Points(loop))
+	l.Normalize()
+	return l
 }
 
 func LoopProtoToS2Points(loop *pb.LoopProto) []s2.Point {
